@@ -59,8 +59,8 @@ Proof.
   destruct (bitlen m + (e + nf f) <=? 1024) eqn:Efin.
   - (* the scaled double is finite *)
     cbn [round_elem np_round]. fold R.
-    assert (Hgt: elem_gt (NF (Fin R 0)) (cmax f) = (cmax f <? R)) by (unfold elem_gt; rewrite f64_of_Z_exact by lia; apply f64_ltb_int).
-    assert (Hlt: elem_lt (NF (Fin R 0)) (cmin f) = (R <? cmin f)) by (unfold elem_lt; rewrite f64_of_Z_exact by lia; apply f64_ltb_int).
+    assert (Hgt: elem_gt (NF (Fin R 0)) (cmax f) = (cmax f <? R)) by (unfold elem_gt; apply f64_ltb_int).
+    assert (Hlt: elem_lt (NF (Fin R 0)) (cmin f) = (R <? cmin f)) by (unfold elem_lt; apply f64_ltb_int).
     assert (Ho: overflow_elem f Saturate is_obj (NF (Fin R 0)) = Ok (sat f R)).
     { unfold overflow_elem. rewrite Hgt, Hlt. unfold sat.
       destruct (cmax f <? R) eqn:E1; [f_equal; lia|]. destruct (R <? cmin f) eqn:E2; [f_equal; lia|].
@@ -80,7 +80,7 @@ Proof.
     assert (Hsign: (m <? 0) = (R <? 0)).
     { rewrite HR. assert (0 < 2^(e + nf f)) by (apply pow2_pos; lia). destruct (m <? 0) eqn:E1; destruct (m * 2^(e + nf f) <? 0) eqn:E2; try reflexivity; nia. }
     cbn [round_elem np_round]. unfold overflow_elem, elem_gt, elem_lt.
-    rewrite !f64_of_Z_exact by lia. unfold f64_ltb, f64_cmp.
+    unfold f64_ltb, f64_cmp.
     destruct (m <? 0) eqn:Es.
     + cbn [bind]. replace (sat f R) with (cmin f) by (unfold sat; lia).
       rewrite Hin by lia. replace (cmax f <? R) with false by lia. replace (R <? cmin f) with true by lia. reflexivity.
@@ -102,4 +102,90 @@ Proof.
   rewrite (mapM_Forall2 _ (spec_eres f r Saturate) _ vs).
   - cbn [bind]. unfold spec_wres. rewrite !map_map, !existsb_map. reflexivity.
   - clear Hvals. clearbody io. induction Hvs as [|v vs Hv _ IH]; cbn [map]; constructor; [|exact IH]. apply elem_pipe_sat_any; assumption.
+Qed.
+
+(* ---- any word length (fix b7d5946: floats that can reach a bound of more than 53 bits are compared and clamped as integers) ----
+   Codes and the overflow / underflow conditions for every finite double and every word of 1..960 bits (beyond that a finite
+   double times 2^n_frac can overflow to infinity while still being inside the format).  The inaccuracy flag is left out: for
+   codes of more than 53 bits the implementation compares rounded doubles. *)
+Lemma cmax_bound_wide f n : 1 <= nw f <= n -> - 2^n < cmin f /\ cmin f <= 0 /\ 0 <= cmax f < 2^n.
+Proof.
+  intros Hw. unfold cmax, cmin.
+  assert (2^(nw f) <= 2^n) by (apply pow2_le; lia).
+  assert (0 < 2^(nw f - 1)) by (apply pow2_pos; lia).
+  assert (2^(nw f) = 2 * 2^(nw f - 1)) by (apply pow2_double; lia).
+  destruct (sg f); lia.
+Qed.
+
+Lemma elem_pipe_sat_wide f r (is_obj : bool) v : 1 <= nw f <= 960 -> 0 <= nf f <= 960 -> (is_obj = true \/ nw f <= 63) -> dbl v ->
+  exists b, elem_pipe f r Saturate false is_obj (NF (Fin (dm v) (de v))) =
+            Ok {| e_code := quantize f r Saturate v; e_gt := ovf_cond f r v; e_lt := unf_cond f r v; e_inacc := b |}.
+Proof.
+  intros Hw Hf Hpath (Hm & He & Hz). destruct v as [m e]. cbn [dm de] in *.
+  unfold elem_pipe, scale_elem. replace (0 <=? nf f) with true by lia. cbn [bind f64_mul_pow2].
+  rewrite rnd64_scaled by lia.
+  unfold quantize, ovf_cond, unf_cond, dy_scale. cbn [dm de overflow].
+  set (R := round_dy r {| dm := m; de := e + nf f |}).
+  destruct (bitlen m + (e + nf f) <=? 1024) eqn:Efin.
+  - cbn [round_elem np_round]. fold R.
+    assert (Hgt: elem_gt (NF (Fin R 0)) (cmax f) = (cmax f <? R)) by (unfold elem_gt; apply f64_ltb_int).
+    assert (Hlt: elem_lt (NF (Fin R 0)) (cmin f) = (R <? cmin f)) by (unfold elem_lt; apply f64_ltb_int).
+    assert (Ho: overflow_elem f Saturate is_obj (NF (Fin R 0)) = Ok (sat f R)).
+    { pose proof (cmax_bound_wide f 960 Hw) as (Ha0 & Hb0 & Hc0).
+      unfold overflow_elem. rewrite Hgt, Hlt. unfold sat.
+      destruct (cmax f <? R) eqn:E1; [f_equal; lia|]. destruct (R <? cmin f) eqn:E2; [f_equal; lia|].
+      destruct is_obj.
+      - unfold elem_to_int, num_int, f64_trunc_Z. replace (0 <=? 0) with true by reflexivity. rewrite Z.pow_0_r, Z.mul_1_r. f_equal. lia.
+      - assert (Hn: nw f <= 63) by (destruct Hpath; [discriminate|assumption]).
+        pose proof (cmax_bound_wide f 63 ltac:(lia)) as (Ha & Hb & Hc).
+        cbn [elem_to_code]. rewrite astype_int by lia. cbn [of_option]. f_equal. lia. }
+    rewrite Ho. cbn [bind]. rewrite Hgt, Hlt. eexists. reflexivity.
+  - assert (Hm0: m <> 0).
+    { intros ->. specialize (Hz eq_refl). subst e. change (bitlen 0) with 0 in Efin. lia. }
+    pose proof (bitlen_le m 53 ltac:(lia) Hm) as Hbl. pose proof (bitlen_lower m Hm0) as Hlow.
+    assert (HE: 971 < e + nf f) by lia.
+    assert (HR: R = m * 2^(e + nf f)) by (unfold R; apply round_dy_int; lia).
+    pose proof (cmax_bound_wide f 960 Hw) as (Ha & Hb & Hc).
+    assert (Hbig: 2^960 <= Z.abs R).
+    { rewrite HR, Z.abs_mul. assert (0 < 2^(e + nf f)) by (apply pow2_pos; lia). rewrite (Z.abs_eq (2^(e + nf f))) by lia.
+      assert (2^960 <= 2^(e + nf f)) by (apply pow2_le; lia). nia. }
+    assert (Hsign: (m <? 0) = (R <? 0)).
+    { rewrite HR. assert (0 < 2^(e + nf f)) by (apply pow2_pos; lia). destruct (m <? 0) eqn:E1; destruct (m * 2^(e + nf f) <? 0) eqn:E2; try reflexivity; nia. }
+    cbn [round_elem np_round]. unfold overflow_elem, elem_gt, elem_lt. unfold f64_ltb, f64_cmp.
+    destruct (m <? 0) eqn:Es.
+    + cbn [bind]. replace (sat f R) with (cmin f) by (unfold sat; lia).
+      replace (cmax f <? R) with false by lia. replace (R <? cmin f) with true by lia. eexists. reflexivity.
+    + cbn [bind]. replace (sat f R) with (cmax f) by (unfold sat; lia).
+      replace (cmax f <? R) with true by lia. replace (R <? cmin f) with false by lia. eexists. reflexivity.
+Qed.
+
+Lemma mapM_sat_wide f r (is_obj : bool) vs : 1 <= nw f <= 960 -> 0 <= nf f <= 960 -> (is_obj = true \/ nw f <= 63) -> Forall dbl vs ->
+  exists rs, mapM (elem_pipe f r Saturate false is_obj) (map (fun v => NF (Fin (dm v) (de v))) vs) = Ok rs /\
+    map e_code rs = map (quantize f r Saturate) vs /\
+    existsb e_gt rs = existsb (ovf_cond f r) vs /\ existsb e_lt rs = existsb (unf_cond f r) vs.
+Proof.
+  intros Hw Hf Hp Hvs. induction Hvs as [|v vs Hv _ (rs & IH & Hc & Hg & Hl)].
+  - exists []. repeat split; reflexivity.
+  - destruct (elem_pipe_sat_wide f r is_obj v Hw Hf Hp Hv) as (b & Hb).
+    eexists. cbn [map mapM]. rewrite Hb. cbn [bind]. rewrite IH. cbn [bind]. split; [reflexivity|].
+    cbn [map existsb e_code e_gt e_lt]. rewrite Hc, Hg, Hl. repeat split; reflexivity.
+Qed.
+
+Theorem set_val_floats_saturate_any_width f r vs : 1 <= nw f <= 960 -> 0 <= nf f <= 960 -> Forall dbl vs ->
+  exists w, set_val_real f r Saturate false (AF64 (map (fun v => Fin (dm v) (de v)) vs)) VFloat = Ok w /\
+    w_codes w = map (quantize f r Saturate) vs /\
+    w_ovf w = existsb (ovf_cond f r) vs /\ w_unf w = existsb (unf_cond f r) vs.
+Proof.
+  intros Hw Hf Hvs. unfold set_val_real. rewrite exact_factor_AF64.
+  set (io := obj_path f false (AF64 (map (fun v => Fin (dm v) (de v)) vs)) VFloat).
+  assert (Hp: io = true \/ nw f <= 63).
+  { destruct (64 <=? nw f) eqn:E; [left|right; lia]. unfold io, obj_path. rewrite E. rewrite orb_true_r. reflexivity. }
+  assert (Hvals: (if io then Ok (arr_nums (AF64 (map (fun v => Fin (dm v) (de v)) vs)))
+                  else astype_vd (AF64 (map (fun v => Fin (dm v) (de v)) vs)) VFloat)
+                 = Ok (map (fun v => NF (Fin (dm v) (de v))) vs)).
+  { destruct io; cbn [arr_nums astype_vd]; rewrite map_map; reflexivity. }
+  rewrite Hvals. cbn [bind]. clearbody io. cbv beta iota.
+  destruct (mapM_sat_wide f r io vs Hw Hf Hp Hvs) as (rs & Hrs & Hc & Hg & Hl).
+  change (fun x : num => elem_pipe f r Saturate false io x) with (elem_pipe f r Saturate false io).
+  rewrite Hrs. cbn [bind]. eexists. split; [reflexivity|]. cbn [w_codes w_ovf w_unf]. auto.
 Qed.
